@@ -305,6 +305,27 @@ def spawner_releases(chk, col, bindir, tier, release=False, tag=""):
     col.flush("release" + tag)
 
 
+def captures_and_drop_panics(chk, col, bindir, tier, release=False, tag=""):
+    """(1) Closures that OWN over-aligned data (captured by value, alignment 16 / 32 / 64 / 4096): the
+    closure itself reports whether the value sits at an address its type allows and still holds what
+    was put in.  (2) A return value whose destructor panics while the runtime drops it: the handle is
+    dropped first (the closure is held until the drop has returned), so the thread itself has to drop
+    the value and goes through the panic handler from inside its epilogue - every block must still be
+    released exactly once."""
+    script = ["set watchdog=2500", "baseline"]
+    for ck in (16, 32, 64, 4096):
+        script.append("one ty=u8 fin=ret op=join ck=%d" % ck)
+        script.append("one ty=a64d fin=ret op=drop ck=%d" % ck)
+        script.append("one ty=vec fin=panic op=join ck=%d pk=5" % ck)
+    script += ["one ty=pd fin=ret op=drop gate=3", "one ty=pd fin=ret op=drop gate=3 ck=32", "one ty=pd fin=ret op=join",
+               "one ty=u8 fin=ret op=join", "quiesce"]
+    r = T.run_probe(chk, bindir, "captures" + tag, script, strace=False, timeout=90)
+    r.release = release
+    o, b, info = col.add(r, "free")
+    chk.extra["owned_capture_checks" + tag] = sum(getattr(t, "caps", 0) for t in o)
+    col.flush("captures" + tag)
+
+
 WORK_KINDS = {1: "fork + wait, the child scribbles over its copy of the locals", 2: "spawns and joins a thread of its own",
               3: "512 KiB of stack frames", 4: "allocation heavy"}
 
